@@ -35,6 +35,7 @@ LEVEL = 'exploration'
 COUNTS = {'quick': 120, 'thorough': 3000}
 BUDGET = {'quick': 115, 'thorough': 1500}
 TIMEOUT = 600
+WORKERS = 8           # dill snapshots thrash mmap and do not scale across processes here; more workers only add watchdog hits
 SHRINK_LISTS = [['cuts'], ['events']]
 EXPECTED_PROBES = ['resume', 'snapshot', 'snapshot_keep', 'snapshot_file', 'crash_restore', 'torn', 'reset_pf',
                    'cut_at_event', 'cut_off_grid', 'exact_match', 'estimate_match', 'events_after_cut']
